@@ -376,7 +376,15 @@ func traceT1Nums(args []string) error {
 			switch k {
 			case 0:
 				g.ClosePath()
-				px, py = cx(), cx()
+				// the next contour often starts exactly beside or above the current point (hmoveto / vmoveto)
+				switch rng.Intn(3) {
+				case 0:
+					px = cx()
+				case 1:
+					py = cx()
+				default:
+					px, py = cx(), cx()
+				}
 				g.MoveTo(px, py)
 			case 1, 2:
 				px, py = cx(), cx()
@@ -409,7 +417,7 @@ func traceT1Nums(args []string) error {
 	}
 	// staircases: one command form per glyph, every step 10 + 1/300, so that the
 	// rounding errors all have the same sign and add up unless the writer compensates
-	stairs := []string{"rlineto", "hlineto", "vlineto", "rrcurveto", "hvcurveto", "vhcurveto", "mixed"}
+	stairs := []string{"rlineto", "hlineto", "vlineto", "rrcurveto", "hvcurveto", "vhcurveto", "mixed", "moves"}
 	// steps per staircase: as many as fit into a charstring of 65535 bytes (the property
 	// speaks of paths of up to 10,000 segments: the h and v line forms reach that)
 	nstOf := func(form string) int {
@@ -438,6 +446,18 @@ func traceT1Nums(args []string) error {
 				fm = []string{"hlineto", "rrcurveto", "vlineto", "rlineto"}[s%4]
 			}
 			switch fm {
+			case "moves":
+				// whole units: a diagonal line, then a new contour exactly beside (hmoveto) or above
+				// (vmoveto) the current point, alternately
+				px, py = px+3, py+4
+				g.LineTo(px, py)
+				g.ClosePath()
+				if s%2 == 0 {
+					px += 10
+				} else {
+					py += 10
+				}
+				g.MoveTo(px, py)
 			case "rlineto":
 				px, py = px+st, py+st
 				g.LineTo(px, py)
